@@ -1138,7 +1138,13 @@ def _exec_cli(case, ctx):
           "xorcomp": lambda: cnfgen.VariableCompression(F0, Gs, "xor"),
           "majcomp": lambda: cnfgen.VariableCompression(F0, Gs, "maj"),
           "peb": lambda: cnfgen.PebblingFormula(Gs),
-          "stone": lambda: cnfgen.StoneFormula(Gs, 2)}[pos]()
+          "stone": lambda: cnfgen.StoneFormula(Gs, 2)}[pos]
+    r2 = call(F2)
+    if r2[0] == "exc":
+        raise Violation("C15/cli/save-is-not-the-graph-used",
+                        "%s\nthe formula cannot even be built on the saved "
+                        "graph: %r" % (where, r2[1]))
+    F2 = r2[1]
     if F.number_of_variables() != F2.number_of_variables() or \
             list(F) != list(F2):
         raise Violation("C15/cli/save-is-not-the-graph-used",
